@@ -28,6 +28,7 @@ def main(argv=None):
         jobs, meta = mod.jobs(a.tier, env.SEED)
         if a.only:
             jobs = [j for j in jobs if a.only in j.jid]
+            os.environ["VERIF_PARTIAL"] = "1"
         from pv.runner import run_property
         return run_property(pid, mod.LEVEL, a.tier, jobs, meta)
     if a.cmd == "replay":
